@@ -124,6 +124,12 @@ def gen_instance(rng, allow_ext=True):
             iopts.pop('reltol', None)
         inst['nested'] = {'inst': inner, 'at': sorted(rng.sample(range(2, 14), rng.randint(1, 3))), 'opts': iopts}
     inst['solver'] = solver
+    if kind in ('cpl', 'cp') and 'nested' not in inst and rng.random() < 0.08:
+        inst['F_aborts_at'] = rng.randint(2, 9)        # the user's F raises in the middle of the solve
+    if kind in ('conelp', 'lp') and 'primalstart' in inst and inst['dims']['l'] > 0 and rng.random() < 0.15:
+        ps_ = dict(inst['primalstart'])
+        ps_['s'] = [-abs(ps_['s'][0]) - 1.0] + list(ps_['s'][1:])      # not in the cone: refused after the set-up work
+        inst['primalstart'] = ps_
     if inst.get('p') == 0 and kind not in ('gp', 'op') and solver is None and rng.random() < 0.25:
         inst['pass_empty_A'] = True         # A, b given as 0 x n and 0 x 1 matrices instead of None
     if kind in ('conelp', 'lp') and 'dualstart' in inst and inst.get('p', 0) > 0 and 'y' in inst['dualstart'] and rng.random() < 0.3:
@@ -163,6 +169,10 @@ def gen_model(rng):
 
 class RepeatSolveDiffers(Exception):
     pass
+
+
+class UserAbort(Exception):
+    """raised by the simulated user's F in the middle of a solve"""
 
 
 def solve_model(inst, options=None, solver='default'):
@@ -281,6 +291,11 @@ def prepare(inst, m):
         F.keep_trace = False
         m['F'] = F
         m['F.x0'] = F.x0m
+        if inst.get('F_aborts_at'):
+            def abort_hook(k, _at=inst['F_aborts_at']):
+                if k == _at:
+                    raise UserAbort('the user function gave up at call %d' % k)
+            F.hook = abort_hook
         nested = inst.get('nested')
         if nested:
             # re-entrancy: the user's F itself solves another (independent) problem at given call ordinals
